@@ -56,19 +56,26 @@ fn new_id(clone: bool) -> u32 {
     })
 }
 
-fn drop_id(id: u32) {
+/// Returns whether this was the first (legitimate) drop of the instance.
+fn drop_id(id: u32) -> bool {
     // `try_with`: thread-local destructors may run after the ledger is gone
-    let _ = LEDGER.try_with(|l| {
-        let mut l = l.borrow_mut();
-        match l.state.get(id as usize).copied() {
-            Some(1) => {
-                l.state[id as usize] = 2;
-                l.live -= 1;
-                l.dropped += 1;
+    LEDGER
+        .try_with(|l| {
+            let mut l = l.borrow_mut();
+            match l.state.get(id as usize).copied() {
+                Some(1) => {
+                    l.state[id as usize] = 2;
+                    l.live -= 1;
+                    l.dropped += 1;
+                    true
+                }
+                _ => {
+                    l.double_drops.push(id);
+                    false
+                }
             }
-            _ => l.double_drops.push(id),
-        }
-    });
+        })
+        .unwrap_or(true)
 }
 
 /// A value created by a user mapper.
@@ -76,22 +83,27 @@ pub struct Tracked {
     pub id: u32,
     /// the node whose mapper created it
     pub node: u32,
-    _heap: Box<u8>,
+    /// freed by hand on the first drop only, so that a double drop is *recorded* by the ledger instead of
+    /// corrupting the allocator of the monitoring process (Miri / ASan still see the double drop itself)
+    _heap: std::mem::ManuallyDrop<Box<u8>>,
 }
 
 impl Tracked {
     pub fn new(node: u32) -> Tracked {
-        Tracked { id: new_id(false), node, _heap: Box::new(0xA5) }
+        Tracked { id: new_id(false), node, _heap: std::mem::ManuallyDrop::new(Box::new(0xA5)) }
     }
 }
 impl Clone for Tracked {
     fn clone(&self) -> Tracked {
-        Tracked { id: new_id(true), node: self.node, _heap: Box::new(0xA5) }
+        Tracked { id: new_id(true), node: self.node, _heap: std::mem::ManuallyDrop::new(Box::new(0xA5)) }
     }
 }
 impl Drop for Tracked {
     fn drop(&mut self) {
-        drop_id(self.id);
+        if drop_id(self.id) {
+            // SAFETY: first drop of this instance
+            unsafe { std::mem::ManuallyDrop::drop(&mut self._heap) }
+        }
     }
 }
 impl PartialEq for Tracked {
@@ -114,22 +126,25 @@ pub struct TTok {
     pub c: char,
     pub id: u32,
     pub original: bool,
-    _heap: Box<u8>,
+    _heap: std::mem::ManuallyDrop<Box<u8>>,
 }
 
 impl TTok {
     pub fn new(c: char) -> TTok {
-        TTok { c, id: new_id(false), original: true, _heap: Box::new(0x5A) }
+        TTok { c, id: new_id(false), original: true, _heap: std::mem::ManuallyDrop::new(Box::new(0x5A)) }
     }
 }
 impl Clone for TTok {
     fn clone(&self) -> TTok {
-        TTok { c: self.c, id: new_id(true), original: false, _heap: Box::new(0x5A) }
+        TTok { c: self.c, id: new_id(true), original: false, _heap: std::mem::ManuallyDrop::new(Box::new(0x5A)) }
     }
 }
 impl Drop for TTok {
     fn drop(&mut self) {
-        drop_id(self.id);
+        if drop_id(self.id) {
+            // SAFETY: first drop of this instance
+            unsafe { std::mem::ManuallyDrop::drop(&mut self._heap) }
+        }
     }
 }
 impl PartialEq for TTok {
